@@ -36,6 +36,8 @@ CLAIMS = {
          "Every signal the code under test sends goes through the simulated kill(2): the first one must be the configured signal (SIGTERM for out-of-range values), aimed at the process group (the pid with parent_only); SIGKILL follows exactly when the command is still alive shutdown.timeout_seconds later, never earlier and never without a time-out; a shutdown command must run with the process's environment and working directory and SIGKILL follows it only when it fails or times out; after a project shutdown - requested through the API or by a signal to the binary - no member of any managed command's group that was owed a signal is alive. Real OS processes are not used: the kernel is the simulated one (DESIGN.md 2.3)."),
  "C19": ("exploration", "3.C19", "the C08 / C13 / C14 workloads with every request sent through the real gin engine (api.InitRoutes over the live runner) and the bundled client over an in-process transport, judged by the same oracles; reads taken directly and through REST at the same scheduler instant and compared; seeded invalid raw requests",
          "Requests and responses travel through the real routing, handlers, JSON encoding and the bundled client's decoding; only the socket is replaced (a RoundTripper that serves the request on the calling simulated task). The outcome of every state-changing request is judged by the oracles of the direct calls (C08 start/stop/restart, C13 scaling, C14 update); state, states, info, names, ports, hostname and project state are read directly, through REST and directly again under a pinned schedule and must agree; 3-10 invalid requests per run (unknown names, non-numeric / out-of-range path parameters, malformed bodies, wrong methods) must be answered 4xx with a message, never 5xx or a panic, and GET /live must still answer. The websocket log stream and real sockets are not exercised: see DESIGN.md."),
+ "C16": ("exploration", "3.C16", "the real loader run repeatedly on seeded configuration files while the simulator decides every map iteration order (the loader's only source of nondeterminism); loads compared with each other and with the per-replica rendering computed from the scenario",
+         "The loader is a function of the files except for Go's randomised map iteration; that order is behind the simulator's seam (rewritten range-over-map in src/loader, src/types, src/templater), so 'the same files always yield the same project' is decided by loading the same files 2-4 times per run under seeded, sorted, reversed and rotated orders and comparing the complete projects; defaults (name, namespace, replicas, launch time-out, unique replica names) and the rendering of every templated field for each replica's own variables and number are compared with the scenario. No clock, scheduling or fault is involved: this is the narrow part of the property simulation can decide (DESIGN.md 3/C16)."),
  "C11": ("exploration", "3.C11", "seeded simulated runs with scripted output on both streams (chunk splitting, partial last lines, bursts, read errors, restarts); every byte written to the simulated pipes is compared with the log buffer and the log file at the end",
          "What a process wrote to the simulated pipes is ground truth: every complete line must reach the in-memory log and the log file once, in per-stream order, whole (never split or merged across chunk boundaries) and attributed to the right process, across restarts and read errors."),
  "C18": ("exploration", "3.C18", "seeded concurrent writers/readers/subscribers of the log buffer under the cooperative scheduler; porcupine linearizability against a sequential ring model; follower oracle (no loss, duplication or reordering after subscription)",
